@@ -117,6 +117,15 @@ func (c02) Run(c *mon.Ctx, i int) {
 		if vs == nil {
 			vs = base
 		}
+	case i%25 == 18:
+		st, plain, d := synth.MatchEdge(r, r.Intn(4), r.Intn(3), r.Pick(258, 257), r.Pick(0, 0, 1, 2))
+		vs = &ValidStream{S: st, Plain: plain, Desc: "synth " + d}
+	case i%25 == 13:
+		// the longest possible dynamic header (286 bytes), starting shortly before a
+		// 4096-byte refill boundary so that it arrives in two pieces
+		lead := r.Pick(0, 1, 7) + r.Pick(0, 4096-r.Range(6, 290), 8192-r.Range(6, 290), 65536-r.Range(6, 290))
+		st, plain, d := synth.MaxHeader(r, lead, r.Bool())
+		vs = &ValidStream{S: st, Plain: plain, Desc: "synth " + d}
 	case i%25 == 3:
 		// tiny dynamic block meeting the full 64 KiB output window (every delta)
 		st, plain, d := synth.WindowEdge(r, i/25%6, r.Range(1, 4), r.Pick(0, 0, 1, 2), r.Bool(), r.Chance(1, 4))
